@@ -207,6 +207,10 @@ def run_abi(rep, tier, cases, abi, wd, rng):
             items.append("    #[diplomat::out]\n    pub struct O%d {\n%s    }\n" % (n, "".join("        pub %s: %s,\n" % (FN[i], rust_field(f)) for i, f in enumerate(c["fields"]))))
             OUT_SUFFIX[0] = ""
             methods.append("        pub fn giveo%d(&self) -> O%d { todo!() }\n" % (n, n))
+            if n % 3 == 0:
+                # an out-struct with a constructor of its own: values of it still have to be readable from memory (the generated class
+                # routes its public constructor and the internal one through the same entry)
+                items.append("    impl O%d {\n        #[diplomat::attr(auto, constructor)]\n        pub fn make() -> O%d { todo!() }\n    }\n" % (n, n))
         items.append("    pub struct W%d%s {\n%s    }\n" % (n, lt, "".join("        pub %s: %s,\n" % (FN[i], rust_field(f)) for i, f in enumerate(c["fields"]))))
         methods.append("        pub fn take%d%s(&self, s: W%d%s) {}\n" % (n, lt, n, lt))
         if not lt:
@@ -262,8 +266,8 @@ def run_abi(rep, tier, cases, abi, wd, rng):
             # returning the struct: receive buffer of the struct's size and alignment -- or, for a single scalar (incl. newtype
             # chains), no buffer at all and only the receiver as argument
             for fn in ["give"] + (["giveo"] if not any(f["k"] == "opq" for f in c["fields"]) else []):
-                lines.append("  { calls.length = 0; try { host.%s%d(); } catch (e) {} const al = calls.find(x => x[0] === 'diplomat_alloc'); out.%s = al ? al[1] : null; "
-                             "const cl = calls.find(x => x[0] === 'Host_%s%d'); out.%s_nargs = cl ? cl[1].length : -1; }" % (fn, n, fn, fn, n, fn))
+                lines.append("  { calls.length = 0; try { host.%s%d(); } catch (e) { out.%s_threw = String(e).slice(0, 160); } const al = calls.find(x => x[0] === 'diplomat_alloc'); out.%s = al ? al[1] : null; "
+                             "const cl = calls.find(x => x[0] === 'Host_%s%d'); out.%s_nargs = cl ? cl[1].length : -1; }" % (fn, n, fn, fn, fn, n, fn))
         if not needs_lt(c["fields"]) and not any(f["k"] == "opq" for f in c["fields"]):
             for fn in ("reserr", "resok"):
                 lines.append("  { calls.length = 0; globalThis.__flagOff = %d; let threw = null; try { host.%s%d(); } catch (e) { threw = String(e).slice(0, 120); } "
@@ -313,6 +317,9 @@ def run_abi(rep, tier, cases, abi, wd, rng):
         # 3. receive buffer
         single = len(c["flat"]) == 1
         for fn in ("give", "giveo"):
+            if d.get(fn + "_threw"):
+                rep.violation(dict(key, what="reading the returned struct back from memory throws", flavour="out-struct" if fn == "giveo" else "struct",
+                                   error=d[fn + "_threw"].split(":")[0]), {"error": d[fn + "_threw"]})
             if fn not in d:
                 continue
             want = None if single else [ly["size"], ly["align"]]
